@@ -112,12 +112,35 @@ class LimbBody:
             return (me.array_key(base), il)
 
         def name_idx(o):
+            if o[0] == "field" and o[1] == "0" and o[2][0] == "some":
+                n = me.iter_name(o[2], names)
+                if n is not None:
+                    return n
             n = me.iter_name(o, names)
             return n
 
         env_idx = Env(lambda o: name_idx(o), lambda a: (0, (1 << 31)))
 
+        def enum_parts(o):
+            """(index name, array key) when o is a field of an `iter().enumerate()` element"""
+            if o[0] == "field" and o[1] in ("0", "1") and o[2][0] == "some" and o[2][1][0] == "call" and o[2][1][1] == "core::iter::traits::iterator::Iterator::next":
+                it = o[2][1][2][0]
+                if it[0] == "call" and it[1] == "core::iter::traits::iterator::Iterator::enumerate":
+                    src = it[2][0]
+                    while src[0] == "call" and src[1] in ("core::slice::<impl [T]>::iter", "[T]::iter", "core::iter::traits::collect::IntoIterator::into_iter") and src[2]:
+                        src = src[2][0]
+                    return me.iter_name(o[2], names), me.array_key(src)
+            return None
+
         def read(o):
+            ep = enum_parts(o)
+            if ep is not None:
+                nm, arr = ep
+                if o[1] == "0":
+                    return nm
+                key = (arr, Lin({nm: 1}).key())
+                idx_of[key] = Lin({nm: 1})
+                return "%s[%s]" % (arr, Lin({nm: 1}))
             n = me.iter_name(o, names)
             if n is not None:
                 return n
